@@ -21,6 +21,7 @@ KNOWN_FILE = os.path.join(VERIF, "known_findings.json")
 
 _P = None  # property module (inherited by forked workers)
 _FIXED = None
+_KNOWN = []  # listed findings of this property (inherited by forked workers)
 
 
 def evidence_dir():
@@ -87,9 +88,15 @@ def _worker_chunk(job):
         elif st == "skip":
             agg["skips"][res["reason"]] = agg["skips"].get(res["reason"], 0) + 1
         else:
-            agg["violations"].append({"index": i, "kind": kind, "seed": seed_i,
-                                      "case": case, "clause": res["clause"],
-                                      "detail": res["detail"]})
+            k = match_known(_P, _KNOWN, case, res["clause"])
+            if k is not None:
+                # a listed finding: counted, never reported, and never allowed to cut the
+                # exploration short
+                agg["known"][k["id"]] = agg["known"].get(k["id"], 0) + 1
+            else:
+                agg["violations"].append({"index": i, "kind": kind, "seed": seed_i,
+                                          "case": case, "clause": res["clause"],
+                                          "detail": res["detail"]})
         if res.get("nontrivial", True) and st != "skip":
             d = hashlib.blake2b((case_digest(case) + str(res.get("digest", ""))).encode(),
                                 digest_size=8).digest()
@@ -197,7 +204,7 @@ def confirm_fresh(P, path, clause):
 # main batch
 # ---------------------------------------------------------------------------
 def run_batch(pid, tier, master, budget_s=None, max_runs=None, workers=None, quiet=False):
-    global _P, _FIXED
+    global _P, _FIXED, _KNOWN
     t0 = time.time()
     P = load_prop(pid)
     _P = P
@@ -205,6 +212,7 @@ def run_batch(pid, tier, master, budget_s=None, max_runs=None, workers=None, qui
         P.setup()
     _FIXED = list(P.fixed_cases(tier)) if hasattr(P, "fixed_cases") else []
     known = load_known(pid)
+    _KNOWN = known
     budget_s = budget_s if budget_s is not None else P.BUDGET[tier]
     max_runs = max_runs if max_runs is not None else P.MAX_RUNS[tier]
     workers = workers or int(os.environ.get("VERIF_WORKERS", "0")) or min(16, os.cpu_count() or 1)
@@ -238,7 +246,7 @@ def run_batch(pid, tier, master, budget_s=None, max_runs=None, workers=None, qui
         total["evaluations"] += a["evaluations"]
         total["ok"] += a["ok"]
         total["tasks"] += a["tasks"]
-        for key in ("skips", "probes", "faults", "by_kind"):
+        for key in ("skips", "probes", "faults", "by_kind", "known"):
             for k, v in a[key].items():
                 total[key][k] = total[key].get(k, 0) + v
         total["digests"] |= a["digests"]
